@@ -151,8 +151,8 @@ theorem joinedRay_fold (parts : List (Collider R H)) (r : R) (cb : Bool) (n : Na
 
 /-- **`JoinedCollider.RayCollisions` = concatenation**: when the bounds test admits the ray, the count is the
 sum of the children's counts and the callbacks are the children's callbacks in order. -/
-theorem joinedRay_eq (admit : R → Bool) (parts : List (Collider R H)) (r : R) (cb : Bool) (ha : admit r = true) :
-    joinedRay admit parts r cb =
+theorem joinedRay_eq (admits : R → Bool) (parts : List (Collider R H)) (r : R) (cb : Bool) (ha : admits r = true) :
+    joinedRay admits parts r cb =
       ((parts.map fun c => (c.ray r cb).1).sum, parts.flatMap fun c => (c.ray r cb).2) := by
   simp only [joinedRay, ha, Bool.not_true, Bool.false_eq_true, if_false]
   rw [joinedRay_fold]; simp
@@ -237,10 +237,10 @@ theorem joinedStep_fold (tOf : H → α) (r : R) : ∀ (parts : List (Collider R
           · exact h3 c' hc' h' hh'
 
 /-- **`JoinedCollider.FirstRayCollision` = minimum over the children's first collisions.** -/
-theorem joinedFirst_spec (tOf : H → α) (admit : R → Bool) (parts : List (Collider R H)) (r : R)
-    (ha : admit r = true) :
-    ((joinedFirst tOf admit parts r).isSome = true ↔ ∃ c ∈ parts, (c.first r).isSome = true) ∧
-    ∀ h, joinedFirst tOf admit parts r = some h →
+theorem joinedFirst_spec (tOf : H → α) (admits : R → Bool) (parts : List (Collider R H)) (r : R)
+    (ha : admits r = true) :
+    ((joinedFirst tOf admits parts r).isSome = true ↔ ∃ c ∈ parts, (c.first r).isSome = true) ∧
+    ∀ h, joinedFirst tOf admits parts r = some h →
       (∃ c ∈ parts, c.first r = some h) ∧ ∀ c ∈ parts, ∀ h', c.first r = some h' → tOf h ≤ tOf h' := by
   have := joinedStep_fold tOf r parts none
   simp only [] at this
@@ -256,15 +256,15 @@ variable [Zero α]
 
 /-- **`joined_contract`**: a `JoinedCollider` (and `joinedMultiCollider`, which embeds it) satisfies the
 contract for a ray whenever every child does — whatever the bounds prefilter answers. -/
-theorem joined_contract' (tOf : H → α) (admit : R → Bool) (parts : List (Collider R H)) (r : R)
-    (hp : ∀ c ∈ parts, Contract tOf c r) : Contract tOf (joined tOf admit parts) r := by
-  by_cases ha : admit r = true
+theorem joined_contract' (tOf : H → α) (admits : R → Bool) (parts : List (Collider R H)) (r : R)
+    (hp : ∀ c ∈ parts, Contract tOf c r) : Contract tOf (joined tOf admits parts) r := by
+  by_cases ha : admits r = true
   swap
-  · have ha' : admit r = false := by simpa using ha
+  · have ha' : admits r = false := by simpa using ha
     refine ⟨?_, ?_, ?_, ?_, ?_, ?_⟩ <;> simp [joined, joinedRay, joinedFirst, ha']
-  have hray : ∀ cb, (joined tOf admit parts).ray r cb =
+  have hray : ∀ cb, (joined tOf admits parts).ray r cb =
       ((parts.map fun c => (c.ray r cb).1).sum, parts.flatMap fun c => (c.ray r cb).2) :=
-    fun cb => joinedRay_eq admit parts r cb ha
+    fun cb => joinedRay_eq admits parts r cb ha
   have hsum : (parts.map fun c => (c.ray r true).1).sum = (parts.flatMap fun c => (c.ray r true).2).length := by
     clear hray
     induction parts with
@@ -272,7 +272,7 @@ theorem joined_contract' (tOf : H → α) (admit : R → Bool) (parts : List (Co
     | cons c cs ih =>
       simp only [List.map_cons, List.sum_cons, List.flatMap_cons, List.length_append]
       rw [ih (fun c' hc' => hp c' (List.mem_cons_of_mem _ hc')), (hp c List.mem_cons_self).count_eq_calls]
-  have hfirst := joinedFirst_spec tOf admit parts r ha
+  have hfirst := joinedFirst_spec tOf admits parts r ha
   refine ⟨?_, ?_, ?_, ?_, ?_, ?_⟩
   · rw [hray]; exact hsum
   · rw [hray, hray]
@@ -289,7 +289,7 @@ theorem joined_contract' (tOf : H → α) (admit : R → Bool) (parts : List (Co
     intro h hm
     obtain ⟨c, hc, hm⟩ := List.mem_flatMap.1 hm
     exact (hp c hc).nonneg h hm
-  · show (joinedFirst tOf admit parts r).isSome = true ↔ _
+  · show (joinedFirst tOf admits parts r).isSome = true ↔ _
     rw [hfirst.1, hray]
     simp only [ne_eq]
     constructor
